@@ -15,3 +15,7 @@ Definition shift_down (a x : Z) : Z := if x =? -1 then -1 else x - a.
 (** first / last 1-bit of ws in [a+j, b), as a position inside the slice; -1 if none *)
 Definition spec_SliceNext (ws : list Z) (a b j : Z) : Z := shift_down a (spec_NextOne ws (a + j) b).
 Definition spec_SlicePrev (ws : list Z) (a b j : Z) : Z := shift_down a (spec_PrevOne ws (a + j) b).
+
+(** elements k .. m-1 of a list *)
+Definition sublist (vs : list Z) (k m : Z) : list Z :=
+  firstn (Z.to_nat (m - k)) (skipn (Z.to_nat k) vs).
